@@ -26,6 +26,6 @@ def pattern(rx):
 
 
 def install(machine):
-    from . import core, strs, vecs, iters, fmt, maps, envs, paths  # noqa: F401
+    from . import core, strs, vecs, iters, fmt, maps, envs, paths, json  # noqa: F401
     machine.models.update(MODELS)
     machine.model_patterns.extend(PATTERNS)
